@@ -73,6 +73,14 @@ Theorem C08_error_answer_keeps_acknowledged : forall f db colname col cuid req,
 Proof. exact error_keeps_acknowledged. Qed.
 Print Assumptions C08_error_answer_keeps_acknowledged.
 
+(* whole requests (any number of packs each), any number of them, a storage command failing during any of them — the
+   collection lookup, the client lookup, or any command of any pack: the acknowledged part of the store satisfies the log
+   invariant of C06 *)
+Theorem C08_log_invariant_with_faults : forall rfs : list (request * option pfault),
+  LogInv (clean (fold_left fserve rfs sdb_init)).
+Proof. exact faulty_log_invariant. Qed.
+Print Assumptions C08_log_invariant_with_faults.
+
 (* (3) the system: events of C05's system with late subscribers, each paired with the command that fails during it (or None) *)
 Theorem C08_faulty_history_is_a_fault_free_history : forall colname col D key ty evs st,
   WInv (dbof st) ->
